@@ -87,7 +87,7 @@ def injectHtmlAttributes(tag: str, consume: bool=True) -> str:
             attrs = f'class="{classes}"'
     if id:
         id = id.lower()
-        has_id = re.compile(r'^<[^<]*id=".*?"', re.IGNORECASE).search(result)
+        has_id = re.compile(r'^<[^<>]*id=".*?"', re.IGNORECASE).search(result)
         if has_id or id in ids:
             options.errorCallback(f"duplicate 'id' attribute: {id}")
         else:
